@@ -27,6 +27,49 @@ type site struct {
 	Stage   string // restart | after-remove | re-restart | resumed | resumed-restart | live
 	K       int64
 	extra   func() map[string]any
+	lw      *lower    // the lower layers under the store being audited
+	zc      *zipCache // validated zips of the case
+}
+
+// dupCause explains from the lower layers why a blob could be listed twice.
+func (s *site) dupCause(ref blob.Ref) string {
+	if s.lw == nil || s.zc == nil {
+		return "unknown"
+	}
+	_, inSmall := s.lw.small.BlobContents(ref)
+	zips, repeated := 0, false
+	for _, zr := range refsOf(s.lw.large) {
+		zi := s.zipOf(zr)
+		if zi.Contained[ref] {
+			zips++
+		}
+		if zi.Repeated[ref] {
+			repeated = true
+		}
+	}
+	switch {
+	case inSmall && zips > 0:
+		return "loose-and-zip-copy"
+	case zips > 1:
+		return "in-two-zips"
+	case repeated:
+		return "repeated-in-manifest"
+	}
+	return "unknown"
+}
+
+// leftCause explains from the lower layers why a removed blob is still served.
+func (s *site) leftCause(ref blob.Ref) string {
+	if s.lw == nil {
+		return "unknown"
+	}
+	if _, ok := s.lw.small.BlobContents(ref); ok {
+		return "loose-copy-left"
+	}
+	if _, err := s.lw.meta.Get("b:" + ref.String()); err == nil {
+		return "meta-row-left"
+	}
+	return "unknown"
 }
 
 func (s *site) tail() string { return s.Variant + "/" + s.Phase }
@@ -62,11 +105,16 @@ func (s *site) report(removed map[blob.Ref]bool) func(sig, what string) {
 			s.viol("enum-dup/"+s.tail(), what)
 		case "absent-served":
 			// a blob the reference map says is absent: either never stored, or removed by an acknowledged remove
+			var hit blob.Ref
+			at := -1
 			for r := range removed {
-				if strings.Contains(what, r.String()) {
-					s.viol("removed-still-served/"+op+"/"+s.tail(), what)
-					return
+				if i := strings.LastIndex(what, r.String()); i > at {
+					hit, at = r, i
 				}
+			}
+			if at >= 0 {
+				s.viol("removed-still-served/"+s.leftCause(hit)+"/"+s.tail(), op+": "+what)
+				return
 			}
 			s.viol("absent-served/"+op+"/"+s.tail(), what)
 		default:
@@ -173,7 +221,7 @@ func (s *site) streamAudit(ck *sto.Checker) {
 			s.viol("stream-missing/"+s.tail(), fmt.Sprintf("StreamBlobs does not yield present blob %v", ref))
 			return
 		case n > 1:
-			s.viol("stream-dup/"+s.tail(), fmt.Sprintf("StreamBlobs yields present blob %v %d times", ref, n))
+			s.viol("stream-dup/"+s.dupCause(ref)+"/"+s.tail(), fmt.Sprintf("StreamBlobs yields present blob %v %d times", ref, n))
 			return
 		}
 	}
@@ -248,35 +296,42 @@ func (s *site) wholeAudit(st blobserver.Storage, rng *rand.Rand, must map[blob.R
 	}
 }
 
+// zipOf returns the validation of one blob of large; a zip seen for the first time in the
+// case is judged here.
+func (s *site) zipOf(br blob.Ref) *zipInfo {
+	c, _ := s.lw.large.BlobContents(br)
+	zi, fresh := s.zc.get(s.w, br, []byte(c))
+	if fresh {
+		s.r.Count("zips_validated", 1)
+		s.r.Eval(1)
+		for _, p := range zi.Problems {
+			s.viol(p.Sig, p.What)
+		}
+		if zi.Repeats > 0 {
+			s.r.Note("zip_shape", "manifest-with-repeated-chunk")
+		}
+		if zi.Part > 0 {
+			s.r.Note("zip_shape", "part>0")
+		}
+		if zi.Part >= 2 {
+			s.r.Note("zip_shape", "part>=2")
+		}
+	}
+	return zi
+}
+
 // zipAudit validates every blob of large.
-func (s *site) zipAudit(zc *zipCache, lw *lower, limit int) (contained map[blob.Ref]bool, nzips int) {
+func (s *site) zipAudit() (contained map[blob.Ref]bool, nzips int) {
 	contained = map[blob.Ref]bool{}
 	var zis []*zipInfo
-	for _, br := range refsOf(lw.large) {
-		c, _ := lw.large.BlobContents(br)
-		zi, fresh := zc.get(s.w, br, []byte(c), limit)
-		if fresh {
-			s.r.Count("zips_validated", 1)
-			s.r.Eval(1)
-			for _, p := range zi.Problems {
-				s.viol(p.Sig, p.What)
-			}
-			if zi.Repeats > 0 {
-				s.r.Note("zip_shape", "manifest-with-repeated-chunk")
-			}
-			if zi.Part > 0 {
-				s.r.Note("zip_shape", "part>0")
-			}
-			if zi.Part >= 2 {
-				s.r.Note("zip_shape", "part>=2")
-			}
-		}
+	for _, br := range refsOf(s.lw.large) {
+		zi := s.zipOf(br)
 		for r := range zi.Contained {
 			contained[r] = true
 		}
 		zis = append(zis, zi)
 	}
-	for _, p := range zc.checkParts(s.w, zis) {
+	for _, p := range s.zc.checkParts(s.w, zis) {
 		s.viol(p.Sig, p.What)
 	}
 	return contained, len(zis)
